@@ -1504,6 +1504,15 @@ BW_MidiSequencer::MidiEvent BW_MidiSequencer::parseEvent(const uint8_t **pptr, c
             evt.isValid = 0;
             return evt;
         }
+        // The sequencer's own loop, trigger and raw-register events share the number space of the meta events:
+        // one that comes from a file must at least carry the bytes those events read
+        if(((evtype == MidiEvent::ST_LOOPSTACK_BEGIN || evtype == MidiEvent::ST_CALLBACK_TRIGGER) && length < 1) ||
+           ((evtype == MidiEvent::ST_RAWOPL) && length < 2))
+        {
+            m_parsingErrorsString += "parseEvent: Special event without its data.\n";
+            evt.isValid = 0;
+            return evt;
+        }
         std::string data(length ? (const char *)ptr : NULL, (size_t)length);
         ptr += (size_t)length;
 
